@@ -1103,11 +1103,13 @@ func isDigit(r rune) bool {
 }
 
 // allSpaceWithNewline returns true if the entire string consists of whitespace,
-// with at least one newline.
+// with at least one newline.  Whitespace is what line joining treats as such
+// (space, tab, CR, LF): a no-break space or a form feed is a character of the
+// text and is not dropped.
 func allSpaceWithNewline(str string) bool {
 	var seenNewline = false
 	for _, ch := range str {
-		if !unicode.IsSpace(ch) {
+		if !isSpaceEOL(ch) {
 			return false
 		}
 		if isEndOfLine(ch) {
